@@ -98,6 +98,20 @@ PROPS = {
                             'checked on every hub-emitted set by the monitor C08/zero-address-member (sigset suite), registration of the zero address is refused (C17)',
                             'the hub stores a signer set in Sort() order, the order in which its attestation is stored and which the relayer presents as the current set (monitor C08/set-not-in-attested-order)',
                             'keccak256/abi.encode of (gravityId, "checkpoint", nonce, validators, powers) is injective (checkpoints compared as values)']},
+    'C15': {'suites': [{'name': 'genesis', 'quick': '-n 150 -ops 40', 'thorough': '-n 2000 -ops 100', 'shards': {'quick': 2, 'thorough': 16}},
+                       {'name': 'votesgen', 'quick': '-n 150 -ops 70', 'thorough': '-n 2000 -ops 150', 'shards': {'quick': 2, 'thorough': 16}},
+                       {'name': 'oraclegen', 'quick': '-n 150 -ops 60', 'thorough': '-n 2000 -ops 120', 'shards': {'quick': 1, 'thorough': 8}},
+                       {'name': 'reggen', 'quick': '-n 100 -ops 60', 'thorough': '-n 1000 -ops 120', 'shards': {'quick': 2, 'thorough': 16}}],
+            'trusted_base': [
+                'models of the round trip on the four hand-written state models: coq/Hub/Genesis.v (restart on the hub state, vrestart on the vote state), coq/Oracle/Oracle.v (orestart), coq/Hub/Registry.v (rrestart); '
+                'tied to /repo by executing, inside generated histories of the respective suite, the real keeper.ExportGenesis / x/oracle ExportGenesis -> JSON -> InitGenesis on fresh stores (harness Env.Restart; bank and auth state travel through their own export) '
+                'and comparing the full observation of the suite after the restart (and, for the vote suite, after every later operation) with the model',
+                'the models mirror the implementation INCLUDING its losses (that is what makes the correspondence agree); the property itself is evaluated by the monitors (component by component, before vs after the restart) and by the refutation theorems',
+                'not covered: app/export.go wiring (zero-height export, validator set export) and modules other than mhub2, oracle, bank, auth; contract-call outgoing txs only through the registry suite'],
+            'rule': 'genesis: hub histories (sends, cancels, batches, deposits, executions, timeouts, block boundaries; only events that pass ExternalEvent.Validate) ended by a restart at a block boundary; '
+                    'votesgen: vote histories with a restart between any two operations (probability 1/12 per step, votes in progress, orchestrators registered), continuation compared step by step; '
+                    'oraclegen: oracle histories ended by a restart; reggen: registration/confirmation histories ended by a restart.',
+            'assumptions': ['a restart happens at a block boundary (no claims pending inside a block)', 'bank and auth genesis round trips are the SDK\'s (exercised, not modelled)']},
     'C18': {'suites': [{'name': 'oracle', 'quick': '-n 300 -ops 80', 'thorough': '-n 4000 -ops 160', 'shards': {'quick': 2, 'thorough': 16}}],
             'trusted_base': [
                 'model: coq/Oracle/Oracle.v (MsgPriceClaim / MsgHoldersClaim handlers, attestation vote lists, tryAttestation threshold, GetNormalizedValPowers, the two AttestationHandler branches, ProcessCurrentEpoch, '
@@ -184,6 +198,11 @@ TEXT = {
                      'updateValset / submitBatch additionally need the true current set, a larger nonce, block < timeout and funds, and with those are accepted; every accepted operation advances the event nonce by exactly one, a refused one changes nothing; nonces never decrease; '
                      'Minter multisig threshold 667/1000 of floor-weights implies >= 66.7% of power. Monitors evaluate the same on the compiled contract. PARTIAL: "fed back through attestation" is covered by composition with C03/C09 theorems, not by one end-to-end model; logic calls are not modelled.',
             'note': 'Trusted: Coq kernel, the translator, extraction + driver, Go harness + go-ethereum simulated backend; bytecode/source correspondence of Hub2.go is assumed.'},
+    'C15': {'technique': 'Coq models of export/import on the state models (preservation theorems, continuation theorem, kernel-checked refutation witnesses) + co-execution of the real ExportGenesis -> JSON -> InitGenesis inside generated histories',
+            'level': 'The property is FALSE of the code and is decided as such: theorems prove what survives (pool, batches with sequence numbers, batch nonce, outgoing sequence, observed external height, tokens, params, vote records and validator nonces, prices, holders, current delegate keys, outgoing txs) '
+                     'and that the continuation is identical when the unexported components are empty; witnesses refute the full round trip (transfer-id counter, statuses, oracle epoch). Monitors compare every observed component before and after the real round trip; '
+                     'nine lost components are KNOWN FINDINGS (no genesis field exists), one defect (pool / outgoing txs / vote records not exported) was repaired.',
+            'note': 'Trusted: Coq kernel, extraction + driver, Go harness (Env.Restart); app/export.go not exercised.'},
     'C18': {'technique': 'Coq invariant over claim histories + order-independence lemma for the quorum + sorted-list proof of the weighted median + correspondence with the real x/oracle keeper',
             'level': 'Theorems for all histories and power distributions: epoch, prices and holders change at no step other than the epoch-boundary EndBlocker; voters are pairwise distinct and are exactly the validators with a stored (latest) report of the epoch; '
                      'the in-order early-exit quorum test equals "voters hold >= 66% of bonded power"; a boundary that changes prices/holders had that quorum; every stored price is the weighted median (half-weight bounds on both sides) of the latest reports; '
